@@ -126,6 +126,11 @@ class World(object):
         self.atoms['k'] = [(['g0'], 'c21', 0.0), (['c21'], 'g0', 0.0)]
         one('x', 'c01', 'c20', bias=100.0)
         one('y', 'c10', 'c20')
+        # a TWO-input link whose inputs lie at unequal depths from d0 (c01: own, c20: two links away) and which is off
+        # by +100; the exact route c00 -> c10 (a) -> c11 (f) is shorter than the true depth (3) of this one
+        fw = aff('c01', 'c11', 100.0)
+        self.links['w'] = ComponentLink([c['c01'], c['c20']], c['c11'], using=lambda x, y: fw(x) + 0 * y)
+        self.atoms['w'] = [(['c01', 'c20'], 'c11', 100.0)]
         one('z', 'c21', 'h0')                                    # one-way d2 -> the invertibly derived attribute
         self.names = scn.link_names
         self.dc = DataCollection(list(self.D))
@@ -320,12 +325,14 @@ def tiers(tier):
         return [('exact3', Scenario(3, ['a', 'b', 'c', 'd', 'e', 'f', 'g'], comps=('c11', 'n0'), data=(1, 2)), 6),
                 ('detour', Scenario(3, ['a', 'x', 'y', 'b'], comps=('c10',), data=(1,), delay=False), 7),
                 ('multi', Scenario(3, ['m', 'a', 'b', 'c'], comps=('c01', 'c20'), data=(2,), delay=False), 5),
+                ('detour2', Scenario(3, ['a', 'y', 'f', 'w'], comps=(), data=(), delay=False), 5),
                 ('derived', Scenario(3, ['k', 'c', 'e'], comps=('c00', 'g0', 'c21'), data=(0, 2), delay=False), 5),
                 ('derived-inv', Scenario(3, ['z', 'k', 'e'], comps=('c01', 'h0'), data=(0, 2), delay=False), 5)]
     return [('exact3', Scenario(3, ['a', 'b', 'c', 'd', 'e', 'f', 'g'], comps=('c11', 'n0', 'c20'), data=(0, 1, 2)), 6),
             ('exact4', Scenario(4, ['a', 'b', 'c', 'd', 'e', 'f', 'g', 'h', 'i', 'j'], comps=('c11',), data=(1, 3)), 5),
             ('detour', Scenario(3, ['a', 'x', 'y', 'b', 'e'], comps=('c10', 'c01'), data=(1, 2)), 7),
             ('multi', Scenario(3, ['m', 'a', 'b', 'c', 'f'], comps=('c01', 'c20', 'c11'), data=(1, 2)), 6),
+            ('detour2', Scenario(3, ['a', 'y', 'f', 'w', 'x'], comps=('c10',), data=(1,)), 6),
             ('derived', Scenario(3, ['k', 'c', 'e', 'a'], comps=('c00', 'g0', 'c21'), data=(0, 2)), 6),
             ('derived-inv', Scenario(3, ['z', 'k', 'e', 'b'], comps=('c01', 'h0', 'c21'), data=(0, 2)), 6)]
 
